@@ -8,6 +8,7 @@ requests (bytes are arrays of 0..255, text arrays of code points):
   {"op":"rle_enc","d":[b…]}                              → {"r":[b…]}
   {"op":"rle_dec","d":[b…],"start":n,"max":n|null}       → {"r":[b…]} | {"err":"truncated"}
   {"op":"foi","mod":m,"init":[n…],"calls":[n…]}          → {"idx":[n…],"list":[n…]}      key = x % m (m=0: identity)
+  {"op":"texdata","ids":[n…]}                            → {"idx":[n…],"order":[n…]}   texdata table of _lmp_write_texinfo (key = object)
   {"op":"foe","mod":m,"bounded":b|null,"init":[n…],"calls":[[n…]…]} → {"idx":[n…],"list":[n…]}   (null: as extracted from the source)
   {"op":"pack","fmt":[cp…],"vals":[v…]}                  → {"r":[b…]} | {"err":e}       v = {"i":n}|{"f":bits}|{"d":bits}|{"b":bool}|{"s":[b…]}
   {"op":"unpack","fmt":[cp…],"d":[b…]}                   → {"vals":[v…]} | {"err":e}
@@ -134,6 +135,11 @@ def handle (j : Json) : Except String Json := do
     let calls ← Wire.natList (← j.getObjVal? "calls")
     let (idx, l) := foiRun m init calls
     pure (Json.mkObj [("idx", Wire.ofNatList idx), ("list", Wire.ofNatList l)])
+  | "texdata" =>
+    -- texdata index per texinfo + order of the texdata records; items are object numbers (identity key)
+    let ids ← Wire.natList (← j.getObjVal? "ids")
+    let r := texdataTable (fun (x : Nat) => x) ids
+    pure (Json.mkObj [("idx", Wire.ofNatList r.1), ("order", Wire.ofNatList r.2)])
   | "foe" =>
     let m ← j.getObjValAs? Nat "mod"
     let bounded : Bool := match j.getObjVal? "bounded" with
